@@ -97,7 +97,8 @@ def keyfn(outcome, e, cfg, events):
         commits = [x["i"] for x in events if x["kind"] == "rename" and x["path"] == "last_finished_iteration"]
         resumed = any(c < e["idx"] or (c == e["idx"] and e["phase"] != "before") for c in commits)
     if cfg.get("save_strategy", "latest") == "latest":
-        w = windows(e_eff, ev_eff, resumed)
+        # the outcome is attributable to a known window if EITHER crash lies in it
+        w = windows(e_eff, ev_eff, resumed) | windows(e, events)
         if outcome == "resume-differs" and "mean" in w:
             return f"resume-differs@{cfg_tag(cfg)}:samples-and-mean-replaced-before-commit"
         if outcome.startswith("resume-raises") and "files" in w and cfg.get("n_samples"):
